@@ -242,6 +242,29 @@ def c07(run: Run):
                     bl[0].packed_override = val
                 d = core.build_xz(f["check"], bl)
                 run.add("xz in=%s" % d.hex(), oracle=bound(len(d)), tag="c07:xz-huge-announced-size", release=True)
+    # the boundary value of the properties byte, wherever one is read
+    for pb_ in (224, 225, 226, 255):
+        m = rng.pick(lz)
+        data = bytes([pb_]) + lzma_file(m)[1:]
+        run.add("lzma us=hdr in=%s" % data.hex(), oracle=bound(len(data)), tag="c07:props-byte", release=True)
+        run.add("stream us=hdr ops=%s" % stream_ops(data, chunkings(rng, len(data), 3)[-1]),
+                oracle=lambda res, meta, peak: "panic/hang in stream" if (stream_verdict(res) in ("panic", "hang", "abort", "missing")) else None,
+                tag="c07:props-byte", release=True)
+        for l2 in [x for x in lz2 if x.get("gen")][:6]:
+            for c in [c for c in parse_lzma2(l2["payload"]) if c["kind"] == "lzma" and c["props_off"] is not None][:1]:
+                mut = l2["payload"][:c["props_off"]] + bytes([pb_]) + l2["payload"][c["props_off"] + 1:]
+                run.add("lzma2 in=%s" % mut.hex(), oracle=bound(len(mut)), tag="c07:props-byte", release=True)
+                run.add("xz in=%s" % core.build_xz(1, [core.XzBlock(mut, l2["out"])]).hex(), oracle=bound(len(mut) + 60), tag="c07:props-byte", release=True)
+    # an end marker followed by more input in a LATER call (stream), or by another decompress (raw decoder)
+    for m in [x for x in lz if x["eos"] and x["dict"] >= 4096][:sizes(run.tier, 12, 80)]:
+        good = lzma_file(m)
+        more = rng.pick([b"\x00", bytes(6), rng.bytes(20), good])
+        run.add("stream us=hdr ops=wa:%s;wa:%s;fin" % (good.hex(), more.hex()),
+                oracle=lambda res, meta, peak: "panic/hang in stream" if (stream_verdict(res) in ("panic", "hang", "abort", "missing")) else None,
+                tag="c07:after-marker", release=True)
+        run.add("rawlzma lc=%d lp=%d pb=%d dict=%d us=none ml=none ops=d:%s;d:%s" % (m["lc"], m["lp"], m["pb"], m["dict"], m["payload"].hex(), m["payload"].hex()),
+                oracle=lambda res, meta, peak: "panic/hang in raw decoder: " + res[:80] if ("panic" in res or v(res) in ("hang", "abort", "missing")) else None,
+                tag="c07:raw-twice", release=True)
     # F1/F2 regression witnesses
     f = xzs[0]
     for bs in (0xFFFFFFFF, 0x40000000):
@@ -619,7 +642,7 @@ def c12(run: Run):
             return None
         return oracle
 
-    def decoder_cases(op, args, data, out, flushes, maxcalls):
+    def decoder_cases(op, args, data, out, flushes, maxcalls, probes_eof=False):
         # sink faults at every call position
         for k in range(maxcalls + 1):
             script = ",".join(["a"] * k + ["f"])
@@ -630,23 +653,24 @@ def c12(run: Run):
             run.add("%s %s sink=%s in=%s" % (op, args, script, data.hex()),
                     oracle=lambda res, meta, peak, out=out, fl=flushes: None if v(res) == "ok" and outfield(res) == out_repr(out) and (not fl or core.fields(res).get("lf") == "1")
                     else "short-writing sink did not receive the complete data / no flush", tag="c12:%s:shortwrite" % op, script="")
-        # source faults at every position
+        # source faults at every position (decoders that probe for end of input must also fail when
+        # that probe is the failing read: p == len)
         for p in range(len(data) + 1):
             run.add("%s %s rbad=1 in=%s" % (op, args, data[:p].hex()),
                     oracle=lambda res, meta, peak, out=out, p=p, n=len(data): ("source fault: verdict %s" % v(res)) if v(res) not in ("ok", "err")
-                    else ("source failed at byte %d of %d but success was reported" % (p, n)) if (v(res) == "ok" and p < meta["need"])
+                    else ("source failed at byte %d of %d but success was reported" % (p, n)) if (v(res) == "ok" and p < meta["need"] + (1 if meta["probes"] else 0))
                     else None if is_prefix_repr(outfield(res), out) else "wrong bytes delivered before the source failure",
-                    tag="c12:%s:srcfault" % op, need=len(data), script="")
+                    tag="c12:%s:srcfault" % op, need=len(data), script="", probes=probes_eof)
     for m in hdr:
         data = lzma_file(m)
-        decoder_cases("lzma", "us=hdr", data, m["out"], True, 3)
+        decoder_cases("lzma", "us=hdr", data, m["out"], True, 3, probes_eof=bool(m["eos"]))
     for m in small_dict:
         # raw decoder API has no sink script in the protocol; use window-level ops instead (below)
         pass
     for m in lz2:
         decoder_cases("lzma2", "", m["payload"], m["out"], True, len(parse_lzma2(m["payload"])) + 2)
     for f in xzs:
-        decoder_cases("xz", "", f["data"], f["out"], False, len(f["blocks"]) + 1)
+        decoder_cases("xz", "", f["data"], f["out"], False, len(f["blocks"]) + 1, probes_eof=True)
     # window level: many flushes (small dictionary), faults at each
     for i in range(sizes(run.tier, 30, 300)):
         d = rng.pick([1, 2, 3])
